@@ -379,7 +379,7 @@ def gen_program(rng):
 # ----------------------------------------------------------------------------
 # exhaustive enumeration (seed independent)
 # ----------------------------------------------------------------------------
-ENUM_ATOMS = [('expr', ('call', 1)), ('expr', ('id', 1)), ('ret', ('lit',)), ('throw', ('lit',))]
+ENUM_ATOMS = [('expr', ('call', 1)), ('expr', ('id', 1)), ('ret', ('lit',)), ('throw', ('lit',)), ('throw', ('id', 1))]
 ENUM_CONDS = [('T',), ('O', ('id', 2))]
 
 
@@ -607,17 +607,24 @@ def model_body(prog):
 
 
 def classify_many(progs):
-    """For each program with a violation on the faithful model: the class "A" | "B" | "C" | "D" such that
-       (i) the syntactic feature of the class is present and (ii) switching ONLY that repair on in the model
-       removes every violation of the program; None if there is no such class (an unexplained violation)."""
+    """For each program with a violation on the faithful model: the smallest set of classes, e.g. "A" or "A+D",
+       such that (i) the syntactic feature of each class is present in the program and (ii) switching ONLY those
+       repairs on in the model removes every violation of the program; None if there is no such set (an
+       unexplained violation - in particular whenever a violation survives all repairs)."""
+    if not progs:
+        return []
     toks = [print_program(p)[1] for p in progs]
-    by_mask = {c: model_oracle(toks, MASKS[c]) for c in CLASSES}
+    masks = sorted(range(1, ALL_FIXES + 1), key=lambda m: (bin(m).count("1"), m))
+    by_mask = {m: model_oracle(toks, m) for m in masks}
     out = []
     for i, p in enumerate(progs):
+        body = model_body(p)
+        feats = {c for c in CLASSES if FEATURES[c](body)}
         cls = None
-        for c in CLASSES:
-            if FEATURES[c](model_body(p)) and not has_violation(by_mask[c][i]):
-                cls = c
+        for m in masks:
+            letters = [c for c in CLASSES if MASKS[c] & m]
+            if all(c in feats for c in letters) and not has_violation(by_mask[m][i]):
+                cls = "+".join(letters)
                 break
         out.append(cls)
     return out
@@ -771,11 +778,17 @@ def shrink(prog, pred_many, max_rounds=200):
     return cur
 
 
-def violation_pred(mask=0, kinds=("c10", "getter", "cases")):
+def violation_pred(mask=0, kinds=("c10", "getter", "cases"), cls_mask=None):
+    """still well formed, still violating (one of `kinds`) on the model with repairs `mask`, and - when given -
+       not violating any more with the repairs `cls_mask` (so that shrinking stays inside the class)"""
     def pred(progs):
         toks = [print_program(p)[1] for p in progs]
         res = model_oracle(toks, mask)
-        return [bool(o["wf"]) and any(o[k] for k in kinds) for o in res]
+        ok = [bool(o["wf"]) and any(o[k] for k in kinds) for o in res]
+        if cls_mask is not None:
+            res2 = model_oracle(toks, cls_mask)
+            ok = [a and not has_violation(o) for a, o in zip(ok, res2)]
+        return ok
     return pred
 
 
@@ -843,7 +856,7 @@ def compare_programs(progs, rng, mask=0, want_oracle=True):
 
 TIERS = {
     "smoke": {"random": 2000, "exhaustive": 3},
-    "quick": {"random": 40000, "exhaustive": 4},
+    "quick": {"random": 100000, "exhaustive": 4},
     "thorough": {"random": 1000000, "exhaustive": 5},
 }
 
@@ -919,7 +932,7 @@ def compare_all(tier="quick", seed=1, mask=0, chunk=20000, shrink_limit=12):
     per_class = {}
     for (p, src, o), c in zip(violating, cls):
         key = c or "unexplained"
-        res["classes"][key] += 1
+        res["classes"][key] = res["classes"].get(key, 0) + 1
         per_class.setdefault(key, []).append((p, src, o))
         if c is None:
             res["unexplained"].append({"src": src, "oracle": {k: o[k] for k in ("c10", "getter", "cases")}})
@@ -928,7 +941,8 @@ def compare_all(tier="quick", seed=1, mask=0, chunk=20000, shrink_limit=12):
         ex = []
         for p, src, o in items[:shrink_limit]:
             kinds = tuple(k for k in ("c10", "getter", "cases") if o[k])
-            small = shrink(p, violation_pred(0, kinds))
+            cm = sum(MASKS[c] for c in key.split("+")) if key != "unexplained" else None
+            small = shrink(p, violation_pred(0, kinds, cm))
             ssrc, stok, _ = print_program(small)
             so = model_oracle([stok], 0)[0]
             ex.append({"src": ssrc, "class_of_minimal": classify_cf_violation(small), "size": prog_size(small),
